@@ -65,6 +65,7 @@ class SetterEffects(Contract):
     triggers = ()  # backing fields whose assignment makes the caches stale (default: "_" + attr)
     check_write_through = True
     persistable = None  # backing fields that must be persisted when written (None = all fields some group covers)
+    coupled = ()  # other stored fields this setter legitimately rewrites (documented coupling)
     props = ("C03",)
 
     def real_cls(self):
@@ -107,6 +108,15 @@ class SetterEffects(Contract):
             stored_any = any(name in must and name not in self.resets for _, name in writes)
             ctx.oblige("a-successful-assignment-stores-the-value", stored_any, note="no backing field written on a normal return")
         trig = set(self.triggers) if self.triggers else {"_" + self.attr}
+        if self.resets:
+            # frame: assigning one attribute leaves what the object holds for every *other* stored attribute alone
+            # (derived caches named in `resets` are not stored attributes)
+            every = set()
+            for g in list(ARRAY_GROUPS) + ["attributes"]:
+                every |= covered_by(cls, g)
+            loads = {p["name"] for k, p in events if k == "setattr" and p["target"] == "self" and "fetch" in p.get("value_tag", "")}  # lazy loads inside getters
+            foreign = sorted({name for _, name in writes if name not in loads and name in every and name not in trig and name not in self.resets and name not in self.coupled})
+            ctx.oblige("no-other-stored-attribute-is-overwritten", not foreign, kind="frame", note=f"assigning '{self.attr}' also wrote {foreign}")
         stored_fields = [name for _, name in writes if name in trig]
         for c in self.resets:
             cur = me.attrs.get(c, "unset")
